@@ -71,7 +71,14 @@ const EXTRA_CHARS: [&str; 65] = [
     "’", "“", "”", "‘", "…", "–", "—", "·", "•", "¹", "³", "¼", "¾", "ª", "º", "¿", "¡", "§", "¶", "©",
 ];
 
-const KNOWN_SLOW: [&str; 4] = ["factorize J^2", "factorize kg^3 m^5 / s^7", "factorize W^2 / m", "factorize N J"];
+const KNOWN_SLOW: [&str; 30] = [
+    "factorize J^2", "factorize kg^3 m^5 / s^7", "factorize W^2 / m", "factorize N J",
+    // inputs behind defects found (and fixed) earlier: kept as a permanent family
+    "\\u", "\\uzz", "\\u123456789", "1 mod 0", "0^-1", "1 << -1", "1 >> -1", "meter^0 + 1", "H99999999999", "\"\"",
+    "#2020-01-01 00:00:00.1234567890#", "#2020-01-01 00:00 +9999999:00#", "#02:30 US/Pacific#", "now -> +24:00", "now -> -99:99",
+    ".12^45e3 -> digits 3", "log10(-1) * 12", "1 -> 1 << 2", "10 m -> m << 1", "1 -> 1 >> 2",
+    "((m^2147483647)^2147483647)^2147483647", "((1|m)^2147483647)^-2147483647 m", "sqrt(m^2147483647)", "1e2147483647", "1e-2147483648", "units for (m^2147483647)^2147483647",
+];
 
 const SEED_SRC: &str = include_str!("/repo/core/tests/query.rs");
 const MANUAL: &str = include_str!("/repo/docs/rink.7.adoc");
@@ -226,6 +233,7 @@ pub struct C04 {
     mut_chars: Vec<&'static str>,
     alphabet: Vec<String>,
     gen: crate::props::c11::GenPub,
+    gen_t: crate::props::c11::GenPub,
     soup_lens: Vec<u64>,
     cli_batches: u64,
     cli_batch: u64,
@@ -242,6 +250,7 @@ impl C04 {
         let mut alphabet: Vec<String> = (32u8..127).map(|b| (b as char).to_string()).collect();
         alphabet.extend(EXTRA_CHARS.iter().map(|s| s.to_string()));
         let gen = crate::props::c11::GenPub::new(vec!["m", "2", "water", "now", "'q'", "0"], 2);
+        let gen_t = crate::props::c11::GenPub::new(vec!["m", "2", "ft"], 2);
         let soup_lens: Vec<u64> = if thorough { vec![1, 2, 3, 4] } else { vec![1, 2, 3] };
         let mut fams = Fams::default();
         let nt = (TOKENS.len() + TOKENS2.len()) as u64;
@@ -261,13 +270,14 @@ impl C04 {
         }
         fams.add("grammar-directed trees with unit/substance/date/zero leaves", vec![gen.total()]);
         fams.add("inputs known to be slow", vec![KNOWN_SLOW.len() as u64]);
+        fams.add("conversion targets: `3 m -> T` for every small tree T", vec![gen_t.total()]);
         let rink_bin = std::env::var("RINK_BIN").ok().filter(|p| std::path::Path::new(p).exists());
         // CLI pass over the first families (soups up to length 2-3, ladders, 1/2-char strings)
         let cli_batch = 400u64;
         let cli_space: u64 = fams.fams.iter().take(if thorough { 3 } else { 2 }).map(|f| f.2).sum::<u64>();
         let cli_batches = if rink_bin.is_some() { (cli_space + cli_batch - 1) / cli_batch } else { 0 };
         fams.add("the same inputs through the real `rink -f -` in batches", vec![cli_batches]);
-        C04 { fams, seeds, mut_chars, alphabet, gen, soup_lens, cli_batches, cli_batch, rink_bin, ctx: Lazy::new(), count: 0 }
+        C04 { fams, seeds, mut_chars, alphabet, gen, gen_t, soup_lens, cli_batches, cli_batch, rink_bin, ctx: Lazy::new(), count: 0 }
     }
 
     fn soup(&self, mut k: u64, len: u64) -> String {
@@ -367,6 +377,9 @@ impl C04 {
         }
         if name.starts_with("grammar") {
             return Some(self.gen.text(d[0]));
+        }
+        if name.starts_with("conversion targets") {
+            return Some(format!("3 m -> {}", self.gen_t.text(d[0])));
         }
         if name.starts_with("inputs known") {
             return Some(KNOWN_SLOW[d[0] as usize].to_string());
@@ -514,8 +527,15 @@ impl Space for C04 {
         300
     }
     fn heavy(&self) -> Vec<(u64, u64)> {
-        let n = self.fams.total();
-        vec![(n - self.cli_batches - KNOWN_SLOW.len() as u64, n)]
+        let mut out = vec![];
+        let mut start = 0;
+        for (name, _, size) in &self.fams.fams {
+            if name.starts_with("inputs known") || name.starts_with("the same inputs") {
+                out.push((start, start + size));
+            }
+            start += size;
+        }
+        out
     }
     fn time_limit(&self, idx: u64) -> Duration {
         if self.is_cli(idx).is_some() {
